@@ -19,7 +19,8 @@ type halfPipe struct {
 	off     int
 	limit   int
 	closed  bool
-	blocked int // number of Write calls that had to wait for space
+	blocked int        // number of Write calls that had to wait for space
+	wmu     sync.Mutex // one Write call at a time, as on a net.Conn: concurrent writers do not interleave inside a call
 }
 
 func newHalfPipe(limit int) *halfPipe {
@@ -31,6 +32,8 @@ func newHalfPipe(limit int) *halfPipe {
 func (h *halfPipe) size() int { return len(h.buf) - h.off }
 
 func (h *halfPipe) write(p []byte) (int, error) {
+	h.wmu.Lock()
+	defer h.wmu.Unlock()
 	h.mu.Lock()
 	defer h.mu.Unlock()
 	n := 0
